@@ -157,7 +157,9 @@ partial def resolveVE (cx : Ctx) (used : Used) : J → VE × Used
       let selfRef := match m.kind, m.ref with
         | .obj 2, some tg => sameRoot cx tg
         | _, _ => false
-      if used.contains m.id || ((diverges || selfRef) && !cx.unsafeRefs) then (.atom .none, used)
+      -- (a spec-bound list is not offered by itself: an object field that receives it rewrites the
+      -- offered list's allow_partial before the copy is made — F121, outside the model)
+      if used.contains m.id || m.typed || ((diverges || selfRef) && !cx.unsafeRefs) then (.atom .none, used)
       -- a parentless node will be moved: its whole subtree is then out of reach for this call
       else if m.parent.isNone then (.ref m.id, (Tree.node m its).ids ++ used)
       else (.ref m.id, m.id :: used)
